@@ -87,7 +87,22 @@ class Tmatrix(ScatteringTheory):
     def raw_scat_matrs(self, scatterer, pos, medium_wavevec, medium_index):
         args = self._parse_args(scatterer, pos, medium_wavevec, medium_index)
         s = self._run_tmat(args)
-        return s
+        return self._convert_to_scattering_plane_basis(s, pos[2])
+
+    @staticmethod
+    def _convert_to_scattering_plane_basis(s, phi):
+        """The fortran code returns amplitude matrices that relate the
+        (theta, phi) components of the scattered field to the (x, y)
+        components of the incident field. Every other theory (and
+        `mieangfuncs.calc_scat_field`) uses the Bohren & Huffman convention,
+        [[S2, S3], [S4, S1]], relating components parallel and perpendicular
+        to the scattering plane (E_perp = -E_phi), for which a sphere gives
+        the same matrix at every azimuth.
+        """
+        c, sn = np.cos(phi), np.sin(phi)
+        to_xy = np.array([[c, sn], [sn, -c]])            # (2, 2, N)
+        flip = np.array([1, -1]).reshape(1, 2, 1)
+        return np.einsum('nij,jkn->nik', s, to_xy) * flip
 
     def _parse_args(self, scatterer, pos, medium_wavevec, medium_index):
         """Parses inputs into form usable by tmatrix_f. The definitions of
@@ -156,7 +171,7 @@ class Tmatrix(ScatteringTheory):
                 "the T-matrix code to converge."))
         for s in [s11, s12, s21, s22]:
             s *= (-2j*np.pi/med_wavelen)
-        scat_matr = np.array([[s11, s12], [s21, s22]]).transpose()
+        scat_matr = np.array([[s11, s12], [s21, s22]]).transpose(2, 0, 1)
         return scat_matr
 
     def raw_fields(self, pos, scatterer, medium_wavevec, medium_index,
@@ -180,10 +195,7 @@ class Tmatrix(ScatteringTheory):
 
         for i, point in enumerate(pos.T):
             kr, theta, phi = point
-            # TODO: figure out why postfactor is needed -- it is not used in dda.py
-            postfactor = np.array([[np.cos(phi),np.sin(phi)],
-                                   [-np.sin(phi),np.cos(phi)]])
             escat_sph = mieangfuncs.calc_scat_field(kr, phi,
-                                    np.dot(scat_matr[i],postfactor), [1,0])
+                                                    scat_matr[i], [1,0])
             fields[i] = mieangfuncs.fieldstocart(escat_sph, theta, phi)
         return fields.T
